@@ -28,8 +28,9 @@ LeaderM(h, vm) == Com(h)[(vm % NCom(h)) + 1]       \* leader of a view given as 
 WeightOf(s) == IF s \in DOMAIN hdr.w THEN hdr.w[s] ELSE 0
 Weight(S)   == FoldSet(LAMBDA s, acc : acc + WeightOf(s), 0, S)
 TotalW(h)   == Weight(Members(h))
-FOf(h)      == (TotalW(h) - 1) \div 3
-QOf(h)      == TotalW(h) - FOf(h)
+\* a weightless committee has f = 0 and a quorum nobody can reach (quorum.go returns Q = 1 for W = 0)
+FOf(h)      == IF TotalW(h) = 0 THEN 0 ELSE (TotalW(h) - 1) \div 3
+QOf(h)      == IF TotalW(h) = 0 THEN 1 ELSE TotalW(h) - FOf(h)
 IsQuorum(h, S)  == Weight(S \cap Members(h)) >= QOf(h)
 HasHonest(h, S) == Weight(S \cap Members(h)) > FOf(h)
 Byz         == ToSet(hdr.byz)
